@@ -97,3 +97,11 @@ CHECKS["C04"] = dict(
     design_ref="DESIGN.md section 3 C04",
     note="projected_mem values are taken from the plan (their truth is C03's subject). A rechunk-planner refusal at build time counts as refused before running.",
 )
+
+CHECKS["C19"] = dict(
+    level="exploration",
+    technique="metamorphic property-based testing: each generated program is built and computed under the global default config and under 2-4 drawn explicit resource configurations; acceptance class and values must coincide",
+    text="Variants: default config without any Spec, explicit Spec equal to the default, explicit work_dir, MemoryStore / LocalStore intermediate store, compressor None / explicit Blosc, different reserved_mem, executor carried by the Spec, larger allowed_mem. For every variant the acceptance class (accepted, declined at build/plan with the same exception type, failed at execute) must equal the default-config run's and accepted runs must return identical values. Operations that create helper arrays internally are weighted up in the generator.",
+    design_ref="DESIGN.md section 3 C19",
+    note="Budgets of all variants are >= the default's so memory refusals cannot legitimately differ. Random arrays are excluded from the value comparison (fresh root seed per build).",
+)
